@@ -210,7 +210,9 @@ class Builtins:
         """yield (python class or tuple of classes the value is an instance of, state)"""
         E = self.E
         import gfapy
-        if isinstance(x, bool):
+        if hasattr(x, "pyvc_class"):
+            yield (x.pyvc_class, st)
+        elif isinstance(x, bool):
             yield (bool, st)
         elif isinstance(x, (int, str, list, tuple, dict, float)) or x is None:
             yield (type(x), st)
